@@ -1,6 +1,7 @@
 use crate::parser::errors::JsonPathError;
 use crate::parser::model::{JpQuery, Segment, Selector};
 use crate::parser::{parse_json_path, Parsed};
+use crate::query::selector::normalize_json_key;
 use crate::query::QueryPath;
 use serde_json::Value;
 use std::borrow::Cow;
@@ -140,16 +141,20 @@ where
     }
 }
 
+/// Removes the quotes that enclose the text of a name selector.
+fn strip_quotes(key: &str) -> &str {
+    if key.starts_with("'") && key.ends_with("'") {
+        key.trim_matches(|c| c == '\'')
+    } else if key.starts_with('"') && key.ends_with('"') {
+        key.trim_matches(|c| c == '"')
+    } else {
+        key
+    }
+}
+
 impl Queryable for Value {
     fn get(&self, key: &str) -> Option<&Self> {
-        let key = if key.starts_with("'") && key.ends_with("'") {
-            key.trim_matches(|c| c == '\'')
-        } else if key.starts_with('"') && key.ends_with('"') {
-            key.trim_matches(|c| c == '"')
-        } else {
-            key
-        };
-        self.get(key)
+        self.get(strip_quotes(key))
     }
 
     fn as_array(&self) -> Option<&Vec<Self>> {
@@ -266,19 +271,51 @@ impl Queryable for Value {
     where
         T: Into<QueryPath>,
     {
-        convert_js_path(&path.into())
-            .ok()
-            .and_then(|p| self.pointer(p.as_str()))
+        reference_steps(&path.into())?
+            .iter()
+            .try_fold(self, |node, step| match step {
+                RefStep::Name(name) => node.as_object()?.get(name),
+                RefStep::Index(index) => node.as_array()?.get(*index),
+            })
     }
 
     fn reference_mut<T>(&mut self, path: T) -> Option<&mut Self>
     where
         T: Into<QueryPath>,
     {
-        convert_js_path(&path.into())
-            .ok()
-            .and_then(|p| self.pointer_mut(p.as_str()))
+        reference_steps(&path.into())?
+            .iter()
+            .try_fold(self, |node, step| match step {
+                RefStep::Name(name) => node.as_object_mut()?.get_mut(name),
+                RefStep::Index(index) => node.as_array_mut()?.get_mut(*index),
+            })
     }
+}
+
+/// One step of a path given to `reference` / `reference_mut`.
+enum RefStep {
+    Name(String),
+    Index(usize),
+}
+
+/// Splits a path (root, names and non-negative indexes only) into the steps to walk.
+/// A name step only descends into an object and an index step only into an array,
+/// and the member name is the one a query with the same selector would look up.
+fn reference_steps(path: &str) -> Option<Vec<RefStep>> {
+    parse_json_path(path)
+        .ok()?
+        .segments
+        .into_iter()
+        .map(|segment| match segment {
+            Segment::Selector(Selector::Name(name)) => Some(RefStep::Name(
+                strip_quotes(&normalize_json_key(&name)).to_string(),
+            )),
+            Segment::Selector(Selector::Index(index)) => {
+                usize::try_from(index).ok().map(RefStep::Index)
+            }
+            _ => None,
+        })
+        .collect()
 }
 
 fn convert_js_path(path: &str) -> Parsed<String> {
